@@ -448,8 +448,14 @@ class CProgram:
             if not os.path.exists(p):
                 raise AnalysisError('anchor vanished: %s' % rel)
             src = open(p).read()
-            toks, defines = tokenize(src, rel)
-            pr = Parser(toks, rel, defines).parse_unit()
+            try:
+                toks, defines = tokenize(src, rel)
+                pr = Parser(toks, rel, defines).parse_unit()
+            except AnalysisError as e:
+                # a file outside the parsed subset only concerns the rules that ask for its functions
+                self.broken = getattr(self, 'broken', {})
+                self.broken[rel] = str(e)
+                continue
             self.units[rel] = pr
             for k, f in pr.funcs.items():
                 if not os.environ.get('VERIF_NO_ALPHA'):
@@ -461,6 +467,9 @@ class CProgram:
     def func(self, name):
         f = self.funcs.get(name)
         if f is None:
+            broken = getattr(self, 'broken', {})
+            if broken:
+                raise AnalysisError('C function %s not available: %s' % (name, '; '.join(sorted(broken.values()))[:200]))
             raise AnalysisError('anchor vanished: C function %s' % name)
         why = unsupported_pointer_use(f)
         if why:
